@@ -549,3 +549,12 @@ func (r *Report) Write() error {
 	}
 	return os.WriteFile(path, data, 0o644)
 }
+
+// ParseReport reads a report written by Report.Write.
+func ParseReport(data []byte) (*Report, error) {
+	r := &Report{}
+	if err := json.Unmarshal(data, r); err != nil {
+		return nil, err
+	}
+	return r, nil
+}
